@@ -79,6 +79,8 @@ Qed.
 Lemma glob_set_global st v : glob (raw_set_in st globals_id (VStr (fmt_var v)) (VBuiltin BPrint)) (fmt_var v) (VBuiltin BPrint).
 Proof. unfold glob. rewrite get_table_raw_set_in, raw_get_set_str by reflexivity. rewrite String.eqb_refl. reflexivity. Qed.
 
+Definition noab {A} (r : SyltSem.res A) : Prop := match r with SyltSem.RAbrupt _ => False | _ => True end.
+
 (* ------------------------------------------------------------------ the body of `start` *)
 
 Lemma mapM_snoc {A B} (f : A -> M B) a x c ca c1 cx c' :
@@ -111,6 +113,13 @@ Proof.
 Qed.
 
 (* what running the body of `start` gives on the Lua side: it falls off the end or returns *)
+Definition stop_post (E : env) (stL : state) (b : block) (st' : sstate) : Prop :=
+  exists ev stL', ExecS E b stL (RErr ev stL') /\ SyltSem.trace st' = s_out stL'.
+
+Lemma stop_of_exit {A} ctx sc e c c' E stL b o st' :
+  exit_post pv bound ctx sc e c c' E stL b (@SyltSem.RStop A o) st' -> stop_post E stL b st'.
+Proof. intros (rl & Hx & (ev & stL' & -> & Htr)). exists ev, stL'. split; assumption. Qed.
+
 Definition body_post (E : env) (stL : state) (b : block) (r : SyltSem.res sval) (st' : sstate) : Prop :=
   match r with
   | SyltSem.RVal _ =>
@@ -124,10 +133,10 @@ Lemma fbody_sim n g k body ctx c code c' e st r st' sc sc' l E stL F :
   SyltSem.block_value n e body st = (r, st') ->
   lower_fbody (statement g) (expression g) body ctx c = Ok (code, c') ->
   frag_stmts pv sv bound k sc body = Some sc' ->
-  ucovers u code -> ctx_ok l F E c c' -> rel sc e st E stL -> interesting r ->
+  ucovers u code -> ctx_ok l F E c c' -> rel sc e st E stL -> interesting r -> noab r ->
   exists b l', cshape u l code b l' c c' /\ body_post E stL b r st'.
 Proof.
-  intros Hev Hlow Hfrag Hu Hctx Hrel Hint.
+  intros Hev Hlow Hfrag Hu Hctx Hrel Hint Hna.
   destruct n as [|n]; [cbn in Hev; inversion Hev; subst; destruct Hint|].
   cbn [SyltSem.block_value] in Hev. unfold lower_fbody in Hlow.
   destruct (rev body) as [|last init_rev] eqn:Hrev.
@@ -159,11 +168,11 @@ Proof.
       assert (Huall : ucovers u (concat (cs ++ [a0]))) by (rewrite Hcc; apply ucovers_app; split; assumption).
       unfold SyltSem.bind at 1 in Hev'.
       destruct (SyltSem.exec_block n e (rev init_rev ++ [last]) st) as [[e1|o|cc] st1] eqn:He1.
-      3: { inversion Hev'; subst. destruct Hint. }
+      3: { inversion Hev'; subst. destruct Hna. }
       2: { inversion Hev'; subst.
            destruct (proj2 (P_stmt_all pv sv bound u n) g k _ ctx c _ c' e st _ st' sc sc' l E stL F He1 Hmall Hfrag Huall Hctx Hrel Hint)
              as (b1 & l1 & Hs1 & Hpost). rewrite Hcc in Hs1.
-           eexists _, _. split; [exact Hs1 | exact Hpost]. }
+           eexists _, _. split; [exact Hs1 | cbn [stmt_post] in Hpost; cbn [body_post]; eapply stop_of_exit; exact Hpost]. }
       cbn in Hev'. inversion Hev'; subst r st'. clear Hev'.
       destruct (proj2 (P_stmt_all pv sv bound u n) g k _ ctx c _ c' e st _ st1 sc sc' l E stL F He1 Hmall Hfrag Huall Hctx Hrel I)
         as (b1 & l1 & Hs1 & E1 & stL1 & F1 & (Hx1 & _ & Hrel1 & _) & _). rewrite Hcc in Hs1.
@@ -183,10 +192,10 @@ Proof.
       by (intros l0; apply cshape_plain; [lia | reflexivity | reflexivity | reflexivity]).
     unfold SyltSem.bind at 1 in Hev.
     destruct (SyltSem.exec_block n e (rev init_rev) st) as [[e1|o|cc] st1] eqn:He1.
-    3: { inversion Hev; subst. destruct Hint. }
+    3: { inversion Hev; subst. destruct Hna. }
     2: { inversion Hev; subst.
          destruct (proj2 (P_stmt_all pv sv bound u n) g k _ ctx c _ c0 e st _ st' sc sc1 l E stL F He1 Hmi Hfi Hui Hctxi Hrel Hint)
-           as (b1 & l1 & Hs1 & ev & stL1 & Hx1 & Htr).
+           as (b1 & l1 & Hs1 & Hp1). apply stop_of_exit in Hp1 as (ev & stL1 & Hx1 & Htr).
          destruct (Hrest l1) as (b2 & l2 & Hs2 & _).
          eexists _, _. split; [eapply cshape_app; [exact Hs1|]; eapply cshape_app; [exact Hs2 | apply Hret]|].
          exists ev, stL1. split; [apply ExecS_app_stop; [exact Hx1 | intros []] | exact Htr]. }
@@ -195,10 +204,10 @@ Proof.
     pose proof Hok1 as (Hx1 & _ & Hrel1 & _).
     assert (Hctx1 : ctx_ok l1 F1 E1 c0 c') by (eapply (ctx_afterS pv bound u); eassumption).
     destruct (SyltSem.eval n e1 value st1) as [[v_|o|cc] st2] eqn:He2.
-    3: { inversion Hev; subst. destruct Hint. }
+    3: { inversion Hev; subst. destruct Hna. }
     2: { inversion Hev; subst.
          destruct (P_eval_all pv bound u n g k'' value ctx c0 code_v rv c' e1 st1 _ st' sc1 l1 E1 stL1 F1 He2 Hm Hfe Huv Hctx1 Hrel1 Hint)
-           as (b2 & l2 & Hs2 & _ & _ & ev & stL2 & Hx2 & Htr).
+           as (b2 & l2 & Hs2 & _ & _ & Hp2). apply stop_of_exit in Hp2 as (ev & stL2 & Hx2 & Htr).
          eexists _, _. split; [eapply cshape_app; [exact Hs1|]; eapply cshape_app; [exact Hs2 | apply Hret]|].
          exists ev, stL2. split; [|exact Htr].
          eapply ExecS_app; [exact Hx1|]. apply ExecS_app_stop; [exact Hx2 | intros []]. }
@@ -254,7 +263,6 @@ Variable pv : N.
 Variable sv : N.
 Variable bound : N.
 
-Definition noab {A} (r : SyltSem.res A) : Prop := match r with SyltSem.RAbrupt _ => False | _ => True end.
 
 Lemma noab_bind {A B} (m : SyltSem.M A) (k : A -> SyltSem.M B) st r st' :
   SyltSem.bind m k st = (r, st') ->
@@ -593,7 +601,7 @@ Proof.
   assert (Hint : interesting rb).
   { destruct rb as [v|o|cc]; [exact I | | destruct Hna]. cbn in Hgood. destruct o; try destruct Hgood; try exact I.
     exfalso. eapply SemSane.block_value_not_done. exact Hbv. }
-  destruct (fbody_sim pv sv bound u (S f') (S f') k body 0 (bound + 1) bc cb _ _ rb stb [] sc' [] E1 st2 [] Hbv Hbody Hfb Hubc Hctx2 Hrel2 Hint)
+  destruct (fbody_sim pv sv bound u (S f') (S f') k body 0 (bound + 1) bc cb _ _ rb stb [] sc' [] E1 st2 [] Hbv Hbody Hfb Hubc Hctx2 Hrel2 Hint Hna)
     as (b1 & l1 & Hs1 & Hpost).
   pose proof Hs1 as (Hem1 & _ & Hfr1 & Hnl1).
   assert (Hb01 : b1 = b0).
